@@ -220,8 +220,6 @@ def mk_cases(ctx):
         fs = []
         for _ in range(n):
             fs += gen_fields(rng, recs, 1, 1) + gen_fields(rng, recs, 1, 1)
-        if rng.random() < 0.5:   # keep old != new most of the time (old == new is the known drop-field defect)
-            fs = [f if i % 2 == 0 or f != fs[i - 1] else f + b"N" for i, f in enumerate(fs)]
         return (["rename", csv(fs)], fs, [], recs)
 
     def g_label():
@@ -291,6 +289,25 @@ def mk_cases(ctx):
             return (args, [f], [sep], recs)
         return ("nest %s --values %s" % (mode, across), code, g)
 
+    def g_nest_meta():
+        """implode across fields with arbitrary field names: real F_<n> fields, look-alikes a regex reading of F would match"""
+        f = rng.choice(META + PLAIN[:6])
+        look = [f.replace(b".", b"x").replace(b"*", b"").replace(b"|", b"").replace(b"+", b"a") + b"_1", f + b"_", f + b"_1x", f + b"_x", b"z" + f + b"_2", f[:1] + b"_3"]
+        recs = []
+        for _ in range(rng.choice([1, 2, 3])):
+            names = [f + b"_%d" % rng.choice([1, 2, 3, 10, 0, 7]) for _ in range(rng.randint(0, 3))] + rng.sample(look, rng.randint(0, 3))
+            names += [gen_name(rng) for _ in range(rng.randint(0, 3))] + ([f] if rng.random() < 0.3 else [])
+            rng.shuffle(names)
+            r, seen = [], set()
+            for k in names:
+                if k not in seen and k:
+                    seen.add(k)
+                    r.append((k, rng.choice(VALUES)))
+            if r:
+                recs.append(r)
+        recs = recs or [[(f + b"_1", b"v")]]
+        return (["nest", "--implode", "--values", "--across-fields", "-f", arg(f)], [f], [b";"], recs)
+
     def g_l2w():
         recs = gen_stream(rng, homog=rng.random() < 0.5)
         present = [k for r in recs for k, _ in r] or [b"k"]
@@ -313,7 +330,7 @@ def mk_cases(ctx):
         ("unsparsify", 11, g_unsparsify), ("unsparsify -f", 12, g_unsparsify_f),
         ("sparsify", 13, g_sparsify), ("sparsify -f", 14, g_sparsify_f), ("fill-empty", 15, g_fill_empty),
         g_nest("--explode", "--across-records", 16), g_nest("--explode", "--across-fields", 17),
-        g_nest("--implode", "--across-records", 18), g_nest("--implode", "--across-fields", 19, stem_only=True),
+        g_nest("--implode", "--across-records", 18), g_nest("--implode", "--across-fields", 19, stem_only=True), ("nest --implode --values --across-fields (any name)", 19, g_nest_meta),
         ("reshape long-to-wide", 20, g_l2w), ("reshape wide-to-long", 21, g_w2l),
         g_plain("altkv", 22),
     ]
@@ -402,6 +419,15 @@ def oracle(name, code, A, B, recs, out):
             if restrict(r, {f}) != [kv for kv in o if kv in restrict(r, {f})] and uniq(o):
                 return ("nest-explode-fields", "a bystander field was changed")
         if code == 19:
+            f = A[0]
+            lit = lambda k: k.startswith(f + b"_") and len(k) > len(f) + 1 and k[len(f) + 1:].isdigit()
+            if [kv for kv in o if not lit(kv[0]) and kv[0] != f] != [kv for kv in r if not lit(kv[0]) and kv[0] != f]:
+                return ("nest-implode-fields-bystander", "implode across fields changed a field that is neither F_<digits> nor F")
+            if any(lit(k) for k, _ in o):
+                return ("nest-implode-fields-leftover", "a field named F_<digits> survived the implode")
+            vs = [v for k, v in r if lit(k)]
+            if vs and B[0].join(vs) not in [v for k, v in o if k == f]:
+                return ("nest-implode-fields-value", "the imploded value is not the join of the F_<digits> values")
             if not uniq(o) and uniq(r):
                 return ("nest-implode-fields-duplicate-name", "implode across fields produced two fields of the same name")
         if code == 22:
@@ -494,7 +520,7 @@ def inverse_oracles(ctx):
                                                "nest", "--implode", "--values", "--across-records", "-f", arg(f)], [r], "id"))
         jobs.append(("nest-evar-ivar", ["nest", "--evar", ";", "-f", arg(f), "then", "nest", "--ivar", ";", "-f", arg(f)], [r], "id"))
         # explode across fields then implode across fields (metacharacter-free stem, no clash with existing f_<n>)
-        stem = [k for k, _ in r if all(chr(c).isalnum() for c in k) and not any(k2.startswith(k + b"_") for k2, _ in r)]
+        stem = [k for k, _ in r if not any(k2.startswith(k + b"_") for k2, _ in r)]
         if stem:
             f = rng.choice(stem)
             jobs.append(("nest-fields-explode-implode", ["nest", "--explode", "--values", "--across-fields", "-f", arg(f), "then",
@@ -550,8 +576,8 @@ def inverse_oracles(ctx):
             continue
         seen.add(kind)
         cls = "inverse-" + kind
-        if msg == "mlr failed" and "cannot compile regex" in str(obs) and args and args[0] == "nest":
-            cls = "nest-field-name-used-as-regex"
+        if msg == "mlr failed" and "cannot compile regex" in str(obs) and any(isinstance(a, str) and not a.isascii() for a in args):
+            cls = "nest-non-utf8-field-name-rejected"
         violation_once(ctx, {"broken": "inverse/complement law " + kind, "args": repr(args), "input": repr(recs), "observed": repr(obs),
                              "expected": msg, "class": cls})
 
@@ -577,7 +603,8 @@ def cli_tie(ctx, meta):
 
 
 def defect_probes(ctx):
-    """fixed witnesses of defects of the pinned tree (classes listed in c12.findings.md); each is reported while it reproduces"""
+    """fixed witnesses: the three known-finding classes (KNOWN_FINDINGS.txt) and regression probes for the two defects repaired
+    in /repo (rename x,x: bdf02f36c; nest pattern quoting: 331a3d347), which are plain violations if they come back"""
     probes = [
         ("rename-to-same-name-drops-field", ["rename", "a,a"], [[(b"a", b"1"), (b"b", b"2")]], [[(b"a", b"1"), (b"b", b"2")]]),
         ("nest-explode-fields-duplicate-name", ["nest", "--explode", "--values", "--across-fields", "-f", "x"],
@@ -625,6 +652,202 @@ def sec2gmt_identity(ctx):
             return
 
 
+# ------------------------------------------------------------------ regex forms of cut and rename (correspondence only)
+ASCII_NAMES = [n for n in PLAIN + META if all(c < 128 for c in n) and b"\\" not in n]
+RE_META = set(b".*+?()[]{}|^$\\")
+
+
+class RX:
+    """tiny regex AST with three renderings: Go/Miller text, Coq term (C12/Regex.v), nullability"""
+
+    def __init__(self, kind, *a):
+        self.kind, self.a = kind, a
+
+    def text(self):
+        k, a = self.kind, self.a
+        if k == "chr":
+            c = a[0]
+            return ("\\" + chr(c)) if c in RE_META else chr(c)
+        if k == "any":
+            return "."
+        if k == "cls":
+            neg, rs = a
+            return "[" + ("^" if neg else "") + "".join(chr(x) if x == y else "%c-%c" % (x, y) for x, y in rs) + "]"
+        if k == "seq":
+            return "".join(x.text() for x in a[0])
+        if k == "alt":
+            return "(?:" + a[0].text() + "|" + a[1].text() + ")"
+        if k == "star":
+            return RX.wrap(a[0]) + "*"
+        if k == "plus":
+            return RX.wrap(a[0]) + "+"
+        if k == "opt":
+            return RX.wrap(a[0]) + "?"
+        if k == "bol":
+            return "^"
+        if k == "eol":
+            return "$"
+        if k == "grp":
+            return "(" + a[1].text() + ")"
+        if k == "eps":
+            return ""
+
+    @staticmethod
+    def wrap(x):
+        return x.text() if x.kind in ("chr", "any", "cls", "grp") else "(?:" + x.text() + ")"
+
+    def coq(self):
+        k, a = self.kind, self.a
+        ch = lambda c: "(ascii_of_N %d)" % c
+        if k == "chr":
+            return "(Chr %s)" % ch(a[0])
+        if k == "any":
+            return "Any"
+        if k == "cls":
+            return "(Cls %s [%s])" % (coq_bool(a[0]), "; ".join("(%s, %s)" % (ch(x), ch(y)) for x, y in a[1]))
+        if k == "seq":
+            t = "Eps"
+            for x in reversed(a[0]):
+                t = "(Seq %s %s)" % (x.coq(), t)
+            return t
+        if k == "alt":
+            return "(Alt %s %s)" % (a[0].coq(), a[1].coq())
+        if k == "star":
+            return "(Star %s)" % a[0].coq()
+        if k == "plus":
+            return "(Seq %s (Star %s))" % (a[0].coq(), a[0].coq())
+        if k == "opt":
+            return "(Alt %s Eps)" % a[0].coq()
+        if k == "bol":
+            return "Bol"
+        if k == "eol":
+            return "Eol"
+        if k == "grp":
+            return "(Grp %d %s)" % (a[0], a[1].coq())
+        return "Eps"
+
+    def nullable(self):
+        k, a = self.kind, self.a
+        if k in ("chr", "any", "cls"):
+            return False
+        if k == "seq":
+            return all(x.nullable() for x in a[0])
+        if k == "alt":
+            return a[0].nullable() or a[1].nullable()
+        if k in ("star", "opt", "bol", "eol", "eps"):
+            return True
+        if k == "plus":
+            return a[0].nullable()
+        if k == "grp":
+            return a[1].nullable()
+
+
+def gen_regex(rng, names, want_group=False):
+    letters = sorted(set(c for n in names for c in n if c != 0x2c)) or [0x61]
+
+    def atom():
+        x = rng.random()
+        if x < 0.6:
+            return RX("chr", rng.choice(letters))
+        if x < 0.75:
+            return RX("any")
+        return RX("cls", rng.random() < 0.25, rng.choice([[(0x61, 0x63)], [(0x30, 0x39)], [(0x78, 0x79), (0x5f, 0x5f)], [(0x61, 0x61)], [(0x41, 0x5a)]]))
+
+    def piece():
+        a = atom()
+        x = rng.random()
+        if x < 0.65:
+            return a
+        return RX(rng.choice(["star", "plus", "opt"]), a)
+
+    def seq():
+        return RX("seq", [piece() for _ in range(rng.randint(1, 3))])
+    if rng.random() < 0.35 and names:            # a literal piece of an existing name: matches are frequent
+        n = rng.choice(names)
+        i = rng.randrange(len(n)); j = rng.randint(i + 1, len(n))
+        body = RX("seq", [RX("chr", c) for c in n[i:j] if c != 0x2c] or [RX("any")])
+    else:
+        body = seq()
+    if rng.random() < 0.25:
+        body = RX("alt", body, seq())
+    grouped = False
+    if want_group or rng.random() < 0.2:
+        body = RX("grp", 1, body)
+        grouped = True
+        if rng.random() < 0.5:
+            body = RX("seq", [body, piece()])
+    parts = ([RX("bol")] if rng.random() < 0.3 else []) + [body] + ([RX("eol")] if rng.random() < 0.3 else [])
+    return RX("seq", parts), grouped
+
+
+def regex_cases(ctx):
+    """cut -r [-x] [-o] and rename -r / -g against coq/C12/Regex.v"""
+    rng = ctx.rng
+    n = 150 if ctx.tier == "quick" else 1500
+    jobs = []
+    for i in range(n):
+        recs = []
+        for _ in range(rng.choice([1, 2, 3])):
+            ks = rng.sample(ASCII_NAMES, rng.randint(1, 6))
+            recs.append([(k, rng.choice(VALUES)) for k in ks])
+        names = [k for r in recs for k, _ in r]
+        if i % 2 == 0:
+            specs = []
+            for _ in range(rng.randint(1, 3)):
+                rx, _g = gen_regex(rng, names)
+                specs.append((rng.random() < 0.2, rx, []))
+            comp, argo = rng.random() < 0.35, rng.random() < 0.35
+            words = ['"%s"%s' % (rx.text(), "i") if ci else rx.text() for ci, rx, _ in specs]
+            args = ["cut", "-r"] + (["-x"] if comp else []) + (["-o"] if argo else []) + ["-f", ",".join(words)]
+            jobs.append((1, specs, (comp, argo), args, recs))
+        else:
+            gsub = rng.random() < 0.35
+            specs, words = [], []
+            for _ in range(rng.randint(1, 2)):
+                for _try in range(20):
+                    rx, grouped = gen_regex(rng, names, want_group=(not gsub and rng.random() < 0.4))
+                    if not rx.nullable():
+                        break
+                else:
+                    rx, grouped = RX("seq", [RX("chr", 0x61)]), False
+                lit = rng.choice([b"X", b"NEW", b"a", b"", b"_", b"x_1"])
+                rep = [("l", lit)]
+                if not gsub and rng.random() < 0.5:
+                    rep = rng.choice([[("l", lit), ("c", 1 if grouped else 0)], [("c", 1 if grouped else 0), ("l", lit)], [("c", 0), ("l", b"_"), ("c", 1 if grouped else 0)]])
+                ci = rng.random() < 0.2
+                specs.append((ci, rx, rep))
+                words += ['"%s"%s' % (rx.text(), "i") if ci else rx.text(), "".join(p[1].decode() if p[0] == "l" else "\\%d" % p[1] for p in rep)]
+            args = ["rename", "-g" if gsub else "-r", ",".join(words)]
+            jobs.append((2, specs, (gsub, False), args, recs))
+    outs = verbrun(ctx, [(j[3], j[4]) for j in jobs])
+    terms, meta = [], []
+    for j, (st, out, err) in zip(jobs, outs):
+        code, specs, fl, args, recs = j
+        ctx.dist("regex:" + args[0] + " " + args[1])
+        ctx.count(("regex", repr(args), repr(recs)))
+        if st != 0:
+            violation_once(ctx, {"broken": "regex form: verb failed", "args": args, "input": repr(recs), "observed": err.decode("latin1")[-300:], "class": "regex-mlr-failed"})
+            continue
+        if code == 1 and 0 < sum(len(r) for r in out) < sum(len(r) for r in recs):
+            ctx.dist("regex:cut selects a proper subset")
+        if code == 2 and out != recs:
+            ctx.dist("regex:rename changed a name")
+        sp = coq_list(["(%s, %s, %s)" % (coq_bool(ci), rx.coq(), coq_list(["(inl %s)" % coq_bytes(p[1]) if p[0] == "l" else "(inr %d%%nat)" % p[1] for p in rep]))
+                       for ci, rx, rep in specs])
+        terms.append(f"({code}, {sp}, ({coq_bool(fl[0])}, {coq_bool(fl[1])}), {coq_records(recs)}, {coq_records(out)})")
+        meta.append((j, out))
+    bad, err = coq_eval_mismatches(ctx, "C12r", "Base.Record C12.Model C12.Regex",
+                                   "Z * list (bool * re * list piece) * (bool * bool) * list record * list record", "chk_r", terms, shard=max(1, len(terms) // 2 + 1))
+    ctx.cov["correspondence_regex"] = {"cases": len(terms), "mismatches": len(bad)}
+    if err:
+        ctx.violation({"broken": "correspondence-evaluation (regex)", "detail": err[-2000:]}, found_input=False)
+        return
+    for i in bad[:3]:
+        j, out = meta[i]
+        ctx.violation({"broken": "correspondence C12.Regex.chk_r (regex model and implementation differ)", "args": j[3], "input": repr(j[4]), "observed": repr(out)},
+                      found_input=False)
+
+
 def saver_bystanders(ctx):
     """case / sub / gsub / ssub -f F and unspace: fields they do not name (resp. that contain no space) keep name, value
     and position; values-only forms keep every name; ssub/case/unspace are compared with a first-principles result"""
@@ -664,7 +887,8 @@ def saver_bystanders(ctx):
                         if any(w != v.replace(old, new, 1) for (k, v), (_, w) in zip(r, q) if k in S):
                             bad = "ssub is not the replacement of the first occurrence"
                     if kind == "case-v" and not bad:
-                        if any(up(v) is not None and w != up(v) for (k, v), (_, w) in zip(r, q) if k in S):
+                        numeric = lambda v: v[:1].isdigit() or v[:1] in (b"-", b"+", b".")   # case leaves numbers alone
+                        if any(up(v) is not None and not numeric(v) and w != up(v) for (k, v), (_, w) in zip(r, q) if k in S):
                             bad = "case -u -v is not the uppercased value"
                 elif kind == "case-k":
                     if [v for _, v in q] != [v for _, v in r] and len(q) == len(r):
@@ -693,7 +917,7 @@ def run(ctx):
     ctx.assumptions = ["regex forms (-r), flatten/unflatten, json-stringify/json-parse, case, unspace, sub/gsub/ssub, sec2gmt on numbers are not modelled in Coq",
                        "multi-byte --nested-fs is not modelled", "input records have pairwise distinct keys (reader invariant)"]
     forbidden_gate(ctx, ["Base", "C12"])
-    ok, why = check_props(ctx, "C12/Props.v", ["C12/Harness.vo", "C12/Proofs.vo", "C12/ProofsStream.vo"])
+    ok, why = check_props(ctx, "C12/Props.v", ["C12/Harness.vo", "C12/Proofs.vo", "C12/ProofsStream.vo", "C12/Regex.vo"])
     verbs = mk_cases(ctx)
     per = 100 if ctx.tier == "quick" else 400
     jobs = []
@@ -710,7 +934,12 @@ def run(ctx):
         ctx.count((code, repr(A), repr(B), repr(recs)))
         if st != 0:
             msg = err.decode("latin1")[-300:]
-            cls = "nest-field-name-used-as-regex" if (code in (16, 17, 18, 19) and "cannot compile regex" in msg) else "mlr-failed"
+            cls = "mlr-failed"
+            if code in (16, 17, 18, 19) and "cannot compile regex" in msg:
+                try:
+                    A[0].decode("utf-8")
+                except UnicodeDecodeError:
+                    cls = "nest-non-utf8-field-name-rejected"
             oracle_bad.append((j, None, (cls, "verb failed: " + msg)))
             continue
         o = oracle(name, code, A, B, recs, out)
@@ -764,6 +993,8 @@ def run(ctx):
         sec2gmt_identity(ctx)
         saver_bystanders(ctx)
         defect_probes(ctx)
+    with ctx.timed("regex_forms"):
+        regex_cases(ctx)
 
 
 def replay(ctx, path):
